@@ -227,7 +227,7 @@ def make_ode(
         If a symbol is duplicated
     """
     check_components(components=components)
-    t = sp.Symbol("t")
+    t = sp.Symbol("t", real=True)
     # components = add_temporal_state(components, t)
     check_components(components=components)
     _, symbol_values, symbols, lookup = gather_atoms(components=components)
@@ -322,7 +322,7 @@ class ODE:
                 set(k for k, v in symbol_values.items() if len(v) > 1)
             )
 
-        t = sp.Symbol("t")
+        t = sp.Symbol("t", real=True)
         self.t = t
         symbols["time"] = t
 
